@@ -69,7 +69,7 @@ func TestC19(t *testing.T) {
 		}
 		runCase(t, r, i)
 	}
-	r.Require("polls_whose_cache_write_failed", "handles_taken_during_a_failing_updater_build", "incarnations_without_lookup", "drops_observed", "kept_declared", "kept_fresh", "kept_pinned", "kept_no_expiry_age", "restarts", "polls", "reads", "payloads_checked", "kept_exactly_at_age", "handle_grabbed_during_poll_of_stale_secret", "racing_lookups", "polls_with_not_found", "reads_through_struct_fields", "lookups_during_a_poll_cache_write")
+	r.Require("declarations_not_in_sorted_order", "polls_whose_cache_write_failed", "handles_taken_during_a_failing_updater_build", "incarnations_without_lookup", "drops_observed", "kept_declared", "kept_fresh", "kept_pinned", "kept_no_expiry_age", "restarts", "polls", "reads", "payloads_checked", "kept_exactly_at_age", "handle_grabbed_during_poll_of_stale_secret", "racing_lookups", "polls_with_not_found", "reads_through_struct_fields", "lookups_during_a_poll_cache_write")
 	r.Rule("seeded histories over 2 declarable + 4 undeclared names: a first process started from a crafted cache (last-access stamps incl. 0, stale, fresh, far future), then events {restart from the last payload with a new declared set and expiry age in {0,-1s,1s,1h,30d}; clock jump in {0, age-1s, age, age+1s, 10*age}; read through a handle; obtain a handle without reading; new watcher; lookup; service change; poll}. Distinct = (event kind, expiry-age class, what the poll dropped/kept and why)")
 }
 
@@ -119,6 +119,11 @@ func runCase(t *testing.T, r *evid.Run, idx int) {
 		// sometimes a formerly looked-up name is declared now
 		if rng.IntN(5) == 0 {
 			decl = append(decl, names[2+rng.IntN(4)])
+		}
+		// (programs list their secrets in whatever order they were written down in)
+		rng.Shuffle(len(decl), func(i, j int) { decl[i], decl[j] = decl[j], decl[i] })
+		if len(decl) > 1 && decl[0] > decl[1] {
+			r.Count("declarations_not_in_sorted_order", 1)
 		}
 		cache := &fakesvc.MonCache{Initial: doc}
 		// the poller either gets an injected ticker that never fires, or the built-in one with an interval
